@@ -128,6 +128,21 @@ Theorem C20_python_suffixes_partial : forall ps,
 Proof. exact py_args_suffixes. Qed.
 Print Assumptions C20_python_suffixes_partial.
 
+(** nullability as the emitted types show it: Python prints Optional[...] for
+    every nullable column; Kotlin prints T? only for nullable NON-array columns:
+    the known finding nullable_array_optional_in_python_only, kernel-checked *)
+Theorem C20_python_nullable : forall inner arr nn,
+  has_prefix inner "Optional[" = false -> py_says_nullable (py_type_string inner arr nn) = negb nn.
+Proof. exact py_nullable_iff. Qed.
+Print Assumptions C20_python_nullable.
+Theorem C20_refuted_nullable_array :
+  kt_says_nullable (kt_type_string "String" true false) = false /\
+  py_says_nullable (py_type_string "str" true false) = true /\
+  kt_says_nullable (kt_type_string "String" false false) = true /\
+  py_says_nullable (py_type_string "str" false false) = true.
+Proof. exact nullable_array_disagreement. Qed.
+Print Assumptions C20_refuted_nullable_array.
+
 Example C20_names_example :
   kt_bindings [(2, "n"); (2, "n"); (1, "n"); (3, "author_id"); (1, "n"); (4, "")]%Z
     = ["n_2"; "n_2"; "n"; "authorId"; "n"; "dollar4"]
